@@ -189,6 +189,9 @@ def table() -> dict[str, Prop]:
              not_decided="the growth law itself (work per character as the input doubles) and regex backtracking inside `re`"))
     # rules shared across properties (appended here because their modules are imported above)
     props["C01"].rules.append(GD.rule_guard)           # cap branch must consume its range (else: non-termination)
+    from .rules import loop_rules as LP
+    props["C01"].rules.append(LP.rule_loopvar)         # every while loop has a variant (no hang)
+    props["C20"].rules.append(LP.rule_loopvar)
     props["C03"].rules.append(TT.rule_unisplit)        # lines are split at LF only (no Unicode-aware splitlines on the source)
     props["C17"].rules.append(TT.rule_unisplit)
     props["C11"].rules.append(SW.rule_fanout)          # the same coherence through the facade
